@@ -33,6 +33,7 @@ type PropSpec struct {
 	Rule    string   // evidence: generation + non-triviality rule
 	Assumptions   []string
 	ExpectedReach []string // stats keys that a healthy batch is expected to hit
+	Directed []func() *Trace // fixed scenarios replayed by worker 0 before the random runs (regressions of recorded findings)
 	Run     func(ps *PropSpec, seed uint64, tier string, stats *Stats) *RunResult
 	Replay  func(ps *PropSpec, tr *Trace, stats *Stats) *RunResult
 }
